@@ -128,7 +128,10 @@ def handle : List Sx → Sx
         tag "apply" [resSx (S.apply a d)], tag "applyref" [resSx (S.applyRef a d)], tag "applymut" [resSx (S.applyMut a d)],
         tag "single" [resSx (singles S a d)], tag "applyrefd" [resSx (S.apply a dr)],
         tag "follow" [resSx (S.apply f d)], tag "followref" [resSx (S.apply f dr)],
-        tag "fapplyref" [resSx (S.applyRef f d)], tag "fapplymut" [resSx (S.applyMut f d)], tag "fsingle" [resSx (singles S f d)]]
+        tag "fapplyref" [resSx (S.applyRef f d)], tag "fapplymut" [resSx (S.applyMut f d)], tag "fsingle" [resSx (singles S f d)],
+        -- a diff with more than one entry per field: diff(a, b) ++ diff(b, f), applied to a
+        tag "cat" [resSx (S.apply a (d ++ S.diff b f))], tag "catref" [resSx (S.applyRef a (d ++ S.diff b f))],
+        tag "catmut" [resSx (S.applyMut a (d ++ S.diff b f))], tag "catsingle" [resSx (singles S a (d ++ S.diff b f))]]
     | _, _, _, _ => tag "bad-req" []
   | [tyx, .atom "subset", a, b, idx] =>
     match tyOf tyx, valOf a, valOf b, nats? idx with
